@@ -36,6 +36,8 @@ def gen_cases(tier, seed):
     for k in range(40 if q else 300):
         n = int(rng.integers(1, 31))
         b = int(rng.integers(1, n + 1))
+        if k % 7 == 3:
+            b = n  # the whole table in one batch
         cases.append(dict(kind="obs", n=n, b=b, kin=int(rng.integers(0, 4)), kout=int(rng.integers(0, 4)),
                           nparams=int(rng.integers(0, 4)), pshape=int(rng.integers(2)),
                           key=seed * 100 + k, eager=(k % 5 == 0), cost=1.0, x64=bool(k % 3),
@@ -50,6 +52,8 @@ def gen_cases(tier, seed):
         nn = 1 + k % 3
         n = int(rng.integers(2, 16))
         b = int(rng.integers(1, n + 1))
+        if k % 5 == 2:
+            b = n
         present = [bool(rng.integers(3)) for _ in range(nn)]
         if not any(present):
             present[0] = True
@@ -85,7 +89,7 @@ def run_case(case, rec):
             # the documented sharding_device option, with the only (CPU) device: must not change what is served
             kw["sharding_device"] = jax.sharding.SingleDeviceSharding(jax.devices()[0])
             rec.count("obs_loaders_with_sharding_device")
-        g = guard.call(jinns.data.DataGeneratorObservations, jax.random.PRNGKey(case["key"]), b,
+        g = guard.call_supported(jinns.data.DataGeneratorObservations, jax.random.PRNGKey(case["key"]), b,
                        jnp.asarray(pin), jnp.asarray(val), {k: jnp.asarray(v) for k, v in eqp.items()}, **kw)
         step = (lambda gg: gg.get_batch()) if case["eager"] else jax.jit(lambda gg: gg.get_batch())
         g_epoch = -(-n // b)
@@ -212,7 +216,7 @@ def run_case(case, rec):
 
         pins, vals, eqps = reorder(pins, 1), reorder(vals, 2), reorder(eqps, 3)
         J = lambda d: {k: (None if v is None else jnp.asarray(v)) for k, v in d.items()}
-        g = guard.call(jinns.data.DataGeneratorObservationsMultiPINNs, b, J(pins), J(vals),
+        g = guard.call_supported(jinns.data.DataGeneratorObservationsMultiPINNs, b, J(pins), J(vals),
                        observed_eq_params_dict={k: {kk: jnp.asarray(vv) for kk, vv in v.items()} for k, v in eqps.items()},
                        key=jax.random.PRNGKey(case["key"]))
         for k in range(3 * (-(-n // b)) + 1):
